@@ -236,12 +236,30 @@ impl Property for C08 {
         // singly-declared symbols instead of reporting the same root causes for ever.  The quick tier stays strict.
         if let Verdict::Fail(f) = &v {
             let thorough = std::env::var("VERIF_TIER_EFFECTIVE").map(|t| t == "thorough").unwrap_or(false);
-            if thorough && !local.open.contains(&f.sig) && !f.sig.contains("index-leak") && has_multi_file_symbol(&c.ws) {
+            if thorough && !local.open.contains(&f.sig) && !f.sig.contains("index-leak") && (has_multi_file_symbol(&c.ws) || has_multi_file_symbol(&edited_view(c))) {
                 return Verdict::fail("family:multi-file-symbol-order-dependence", format!("[unclassified shape {}] {}", f.sig, f.msg));
             }
         }
         v
     }
+}
+
+/// the workspace as it looks while the alternative texts of the history's edits are in place (an edit can be what makes
+/// a symbol multi-file: `H.b = 1` in one file, `H = G` temporarily appended to another)
+fn edited_view(c: &Case) -> wsgen::Workspace {
+    let mut ws = c.ws.clone();
+    let n = ws.files.len();
+    for op in &c.ops {
+        if let Op::EditRestore { file, alt, .. } = op {
+            if n > 0 {
+                let k = idx(*file, n);
+                let t = alt_text(&c.ws.files[k].text, alt);
+                ws.files[k].text.push('\n');
+                ws.files[k].text.push_str(&t);
+            }
+        }
+    }
+    ws
 }
 
 /// a global / class / alias / enum / function name, a member name or a module name that two files contribute to
